@@ -2,6 +2,7 @@ package constraint
 
 import (
 	"net/url"
+	"strings"
 
 	schema "github.com/jsightapi/jsight-schema-core"
 	"github.com/jsightapi/jsight-schema-core/bytes"
@@ -36,8 +37,10 @@ func (Uri) String() string {
 
 func (Uri) Validate(value bytes.Bytes) {
 	val := value.Unquote().String()
-	_, err := url.ParseRequestURI(val)
-	if err != nil {
+	// A URI has a scheme (a bare path or "*" is only a relative reference), may end in
+	// a fragment (which url.ParseRequestURI does not expect) and holds no blanks.
+	u, err := url.Parse(val)
+	if err != nil || u.Scheme == "" || strings.ContainsAny(val, " \t\n\r") {
 		panic(errs.ErrInvalidURI.F(val))
 	}
 }
